@@ -43,6 +43,7 @@ CHECKS = {
         'level_note': SP_ASSERTION_NOTE + FLOW_NOTE,
         'harnesses': [
             {'name': 'Harness_C04_artifact', 'pkg': 'saml', 'replay': 'direct', 'must_reach': ['accepted', 'rejected'], 'validate_labels': ['accepted'], 'label_prefix': 'C03', 'opts': {'time_res': 1000000, 'params': {'artifact.layouts': 0}, 'K': 1}},
+            {'name': 'Harness_C03_destination', 'pkg': 'saml', 'replay': 'direct', 'must_reach': ['accepted', 'rejected'], 'opts': {'time_res': 1000000, 'K': 1}},
             {'name': 'Harness_C03_flow', 'pkg': 'saml', 'replay': 'direct', 'must_reach': ['accepted', 'rejected', 'accepted-signed-response'],
              'opts': {'time_res': 1000000, 'params': {'status.nested': 1}}, 'quick': {'K': 1}, 'thorough': {'K': 1}},
             {'name': 'Harness_C03_assertion', 'pkg': 'saml', 'replay': 'direct', 'must_reach': ['accepted', 'rejected', 'accepted-with-audience'],
@@ -108,7 +109,7 @@ CHECKS = {
             {'name': 'Harness_C16_gate', 'pkg': 'samlsp', 'replay': 'direct', 'must_reach': ['served', 'handler-ran', 'handler-not-run'],
              'validate_labels': ['handler-ran', 'handler-not-run']},
             {'name': 'Harness_C16_new', 'pkg': 'samlsp', 'replay': 'direct', 'must_reach': ['minted']},
-            {'name': 'Harness_C16_attribute', 'pkg': 'samlsp', 'replay': 'direct', 'must_reach': ['served', 'admitted']},
+            {'name': 'Harness_C16_attribute', 'pkg': 'samlsp', 'replay': 'direct', 'must_reach': ['served', 'admitted'], 'replay_tries': 12},
         ],
     },
     'C17': {
@@ -221,6 +222,8 @@ CHECKS = {
             {'name': 'Harness_C06_attributes', 'pkg': 'saml', 'replay': 'direct', 'must_reach': ['made', 'attribute-value'], 'opts': {'time_res': 1000000},
              'quick': {'K': 1, 'params': {'session.few': 1, 'requested.max': 1, 'rand.mayfail': 0}}, 'thorough': {'K': 1, 'params': {'session.few': 1, 'requested.max': 2, 'rand.mayfail': 0}},
              'budget_s': {'quick': 600, 'thorough': 1800}},
+            {'name': 'Harness_C08_nodowngrade', 'pkg': 'saml', 'replay': 'direct', 'must_reach': ['made', 'encrypted'], 'validate_reach': False, 'label_prefix': 'C06',
+             'opts': {'no_sign_err': True, 'loop_limit': 20000, 'params': {'rand.mayfail': 0, 'sp.wantsigned': 1, 'keylayout.fixed': 1}}},
             {'name': 'Harness_C06_response', 'pkg': 'saml', 'replay': 'direct', 'must_reach': ['emitted', 'refused'], 'validate_labels': ['emitted'],
              'quick': {'params': {'rand.mayfail': 0}, 'no_sign_err': True}, 'thorough': {'params': {'rand.mayfail': 1}}},
         ],
